@@ -199,6 +199,24 @@ func (view *View) group(ctx context.Context, scope *ReferenceScope, items []pars
 		return ConvertContextError(ctx.Err())
 	}
 
+	if 1 < gm.Number {
+		// The goroutines register keys in the order they happen to find them.
+		// Put the groups in the order of their first record, which is the order
+		// a single goroutine produces.
+		firstIndices := make(map[string]int, len(groupKeys))
+		for _, key := range groupKeys {
+			for i := range groupsList {
+				if indices, ok := groupsList[i][key]; ok {
+					firstIndices[key] = indices[0]
+					break
+				}
+			}
+		}
+		sort.Slice(groupKeys, func(i, j int) bool {
+			return firstIndices[groupKeys[i]] < firstIndices[groupKeys[j]]
+		})
+	}
+
 	for i := range groupsList {
 		for k := range groupsList[i] {
 			groupKeyCnt[k] = groupKeyCnt[k] + len(groupsList[i][k])
